@@ -35,6 +35,10 @@ func main() {
 		err = runC17(opt)
 	case "sm":
 		err = runSM(opt)
+	case "tm":
+		err = runTM(opt)
+	case "tsmoke":
+		err = runTSmoke(opt)
 	default:
 		err = fmt.Errorf("unknown property %s", prop)
 	}
